@@ -47,6 +47,11 @@ CHECKS['C20'] = dict(level=MC, engine='Callback', design='DESIGN.md §3 C20',
    note='Messages travel through the real IO queue and handlePolling of a socket-less session pair; OnData consumes everything offered. Known findings (data followed by the peer close is never offered; Close during a callback) are pruned by classifier and their witnesses replayed every run.',
    technique='TLA+ spec at scheduling-point granularity + TLC exhaustive; transition-cover replay on real code with state conformance; random real interleavings with oracles')
 
+CHECKS['C12'] = dict(level=MC, engine='Handshake', design='DESIGN.md §3 C12; checks/handshake_NOTES.md',
+   text='Handshake.tla has one action per blocking IO operation of each end of session establishment (version exchange, metadata, ack-ready, fd passing, ack; V2 and V3 initializers), the error return, the initialization time-out and a ghost for the handshake goroutine; TLC checks Agreement, NoOneSidedSuccess, Cleanup, Bounded and Termination exhaustively over mapping type x client protocol x server generation x transport x fault (side, step, stall/close/half-message/late): ~1100 scenarios, ~12k states. Every scenario class is executed on the REAL newSession (both ends real, or a real end against a scripted raw-socket peer that plays the faulty/old peer) comparing result class, negotiated version and wire messages with the spec, and checking memory identity of queue and buffer, queue cross-wiring, a stream echo, the time bound, and a census of /proc/self/maps, /proc/self/fd and /dev/shm.',
+   note='Old server generations are emulated by the scripted peer. Time bounds use generous margins (loaded machine); anything that is not a clean pass is executed twice. One known finding (protocol 2 has no acknowledgement) is classified and skipped.',
+   technique='TLA+ protocol spec + TLC exhaustive over scenario space; scenario replay on real newSession / scripted peer with result and resource-census comparison')
+
 PENDING = {}
 
 def main():
